@@ -393,6 +393,105 @@ pub fn check_case(c: &Case) -> CheckResult {
     Ok(rep)
 }
 
+// ---------------------------------------------------------------------------------------------
+// arbitrary prior state, written through the storage API
+
+#[derive(Clone, Debug, PartialEq, Eq, Hash, Serialize, Deserialize)]
+pub struct PriorCase {
+    pub sqlite: bool,
+    /// status of task i: 0 pending, 1 completed, 2 deleted, 3 recurring, 4 unknown, 5 no status
+    /// property, 6 = the task does not exist
+    pub tasks: Vec<u8>,
+    /// working-set slots 1..: Some(i) = task i (each task at most once), None = gap
+    pub ws: Vec<Option<u8>>,
+    pub rebuilds: Vec<bool>,
+}
+
+pub fn prior_strategy() -> BoxedStrategy<PriorCase> {
+    (
+        any::<bool>(),
+        proptest::collection::vec(prop_oneof![4 => Just(0u8), 2 => Just(1u8), 1 => Just(2u8), 2 => Just(3u8), 1 => Just(4u8), 1 => Just(5u8), 2 => Just(6u8)], 1..=8),
+        proptest::collection::vec(proptest::option::weighted(0.75, 0u8..8), 0..=8),
+        proptest::collection::vec(any::<bool>(), 1..=3),
+    )
+        .prop_map(|(sqlite, tasks, ws, rebuilds)| {
+            // each task at most once in the prior working set
+            let mut seen = BTreeSet::new();
+            let n = tasks.len() as u8;
+            let ws = ws.into_iter().map(|e| e.map(|t| t % n).filter(|t| seen.insert(*t))).collect();
+            PriorCase { sqlite, tasks, ws, rebuilds }
+        })
+        .boxed()
+}
+
+pub fn check_prior(c: &PriorCase) -> CheckResult {
+    use crate::engine::rep::{open_sqlite, Rep};
+    use taskchampion::storage::{inmemory::InMemoryStorage, Storage, TaskMap};
+    let mut rep = CaseReport::default();
+    let dir = tempfile::TempDir::new().map_err(|e| Failure::new("infra", format!("{e}")))?;
+    let mut storage: Box<dyn Storage> = if c.sqlite {
+        rep.class("sqlite");
+        Box::new(open_sqlite(dir.path()).map_err(|e| Failure::new("sqlite-open", format!("{e}")))?)
+    } else {
+        Box::new(InMemoryStorage::new())
+    };
+    let st = |e: taskchampion::Error| Failure::new("storage-error", format!("preparing the prior state: {e}"));
+    block_on(async {
+        let mut txn = storage.txn().await?;
+        for (i, s) in c.tasks.iter().enumerate() {
+            let mut m = TaskMap::new();
+            match s {
+                0 => m.insert("status".into(), "pending".into()),
+                1 => m.insert("status".into(), "completed".into()),
+                2 => m.insert("status".into(), "deleted".into()),
+                3 => m.insert("status".into(), "recurring".into()),
+                4 => m.insert("status".into(), "frobnicated".into()),
+                5 => m.insert("description".into(), "no status".into()),
+                _ => continue,
+            };
+            txn.set_task(task_uuid(i), m).await?;
+        }
+        for (k, e) in c.ws.iter().enumerate() {
+            // every slot is first filled, then blanked where the case has a gap
+            let idx = txn.add_to_working_set(task_uuid(e.map(|t| t as usize).unwrap_or(100 + k))).await?;
+            if e.is_none() {
+                txn.set_working_set_item(idx, None).await?;
+            }
+        }
+        txn.commit().await
+    })
+    .map_err(st)?;
+    let mut r = Rep::with_storage(storage, &super::common::pool(), false);
+    let mut nontrivial = false;
+    for (k, renumber) in c.rebuilds.iter().enumerate() {
+        let when = format!("rebuild {k} (renumber = {renumber}) from a prior state written through the storage API");
+        let before = trimmed(r.working_set());
+        let tasks = r.tasks();
+        let missing_pending = pending_set(&tasks).iter().filter(|u| !before.contains(&Some(**u))).count();
+        let freed = before.iter().skip(1).filter(|e| e.map(|u| !pending_set(&tasks).contains(&u)).unwrap_or(true)).count();
+        block_on(r.replica.rebuild_working_set(*renumber)).map_err(|e| Failure::new("rebuild-error", format!("{when}: {e}")))?;
+        let after = trimmed(r.working_set());
+        if check_rebuild(&before, &after, &tasks, *renumber, &when, &mut rep)? {
+            nontrivial = true;
+        }
+        if missing_pending >= 1 {
+            rep.class("pending-tasks-missing-from-the-prior-working-set");
+        }
+        if missing_pending >= 2 && freed >= 1 && missing_pending > freed {
+            rep.class("more-newcomers-than-freed-slots");
+        }
+        block_on(r.replica.rebuild_working_set(*renumber)).map_err(|e| Failure::new("rebuild-error", format!("{when}: {e}")))?;
+        let again = trimmed(r.working_set());
+        crate::ensure!(
+            again == after,
+            "ws-rebuild-not-idempotent",
+            "{when}: rebuilding twice in a row changed the working set: {after:?} -> {again:?}"
+        );
+    }
+    rep.nontrivial = nontrivial;
+    Ok(rep)
+}
+
 pub fn run(e: &Engine) {
     e.assume("'newcomers are added after all numbers in use' is read as: after every number held by a task that remains (a newcomer may reuse the number of a dropped trailing entry, which both storages do)");
     e.assume("order among several newcomers is unspecified and not asserted");
@@ -403,5 +502,13 @@ pub fn run(e: &Engine) {
         || strategy(1),
         |c| serde_json::to_value(c).unwrap(),
         check_case,
+    );
+    e.campaign(
+        "arbitrary-prior-state",
+        "a task set (1-8 tasks, any status, without status, or absent) and a prior working set (gaps, entries of finished / status-less / non-existent tasks, pending tasks that are NOT listed) written directly through the storage API, then 1-3 rebuilds in generated modes, each checked with the relational oracle and for idempotence; both storages; non-trivial as above",
+        e.tier.pick(40_000, 1_000_000),
+        prior_strategy,
+        |c| serde_json::to_value(c).unwrap(),
+        check_prior,
     );
 }
